@@ -101,7 +101,7 @@ def gen_bucket_op_cases(ctx, scale):
     """AddCrt / Remove / UpdateMaxProbe / Clear sequences on ONE real bucket vs the generated functions (all bookkeeping bytes)"""
     r = ctx.rng; out = []
     for i in range(400 * scale):
-        kind = r.choice(['o2', 'n1', 'n1f', 'n1f']); m = 3 if kind == 'o2' else r.choice([7, r.range(1, 7)]); L = r.range(1, 63)
+        kind = r.choice(['o2', 'n1', 'n1f', 'n1f']); m = r.range(1, 3) if kind == 'o2' else r.choice([7, r.range(1, 7)]); L = r.range(1, 63)
         cnt = 0; toks = []
         for _ in range(r.range(1, 40)):
             c = r.below(10)
